@@ -113,6 +113,14 @@ class SimQueue(object):
 
     put_nowait = put
 
+    def push(self, item):
+        """Non-yielding put (for timers and for tasks that must not be descheduled here)."""
+        k = _K()
+        self.items.append(item)
+        for w in self.waiters:
+            k.wake(w)
+        self.waiters = []
+
     def get(self, block=True, timeout=None):
         k = _K()
         k.yield_()
@@ -294,3 +302,50 @@ def patch_threads():
     _realthreading.Thread.start = _sim_start
     _realthreading.Thread.join = _sim_join
     _realthreading.Thread.is_alive = _sim_is_alive
+
+
+class LockLeak(Exception):
+    """A lock that nobody can ever release again (single-threaded worlds)."""
+
+
+class LeakLock(object):
+    """threading.Lock look-alike for single-threaded event worlds: acquiring a held lock would block
+    forever there, so it raises instead and the world reports the wedge."""
+
+    def __init__(self):
+        self.held = False
+
+    def acquire(self, blocking=True, timeout=-1):
+        if self.held:
+            if not blocking:
+                return False
+            raise LockLeak("lock is still held from an earlier call that did not release it")
+        self.held = True
+        return True
+
+    def release(self):
+        if not self.held:
+            raise RuntimeError("release unlocked lock")
+        self.held = False
+
+    def locked(self):
+        return self.held
+
+    def __enter__(self):
+        self.acquire()
+        return self
+
+    def __exit__(self, *a):
+        self.release()
+
+
+class _LeakThreadingShim(object):
+    Lock = LeakLock
+    RLock = LeakLock
+    Thread = _realthreading.Thread
+
+    def __getattr__(self, name):
+        return getattr(_realthreading, name)
+
+
+LeakThreadingShim = _LeakThreadingShim()
